@@ -503,6 +503,13 @@ def _pos_increments(f):
     res = []
     for b, i, st in field_stores(f, RA, "pos"):
         rv = st["rv"]
+        if rv["k"] == "bin" and rv["op"] in ("Add", "AddUnchecked"):
+            # without overflow checks the sum is stored directly
+            for x, y in ((rv["a"], rv["b"]), (rv["b"], rv["a"])):
+                px = op_place(x)
+                if px is not None and any(isinstance(e, dict) and e.get("n") == "pos" for e in px.get("p", [])):
+                    res.append((b, i, y))
+            continue
         if rv["k"] != "use":
             continue
         p = op_place(rv["a"])
